@@ -326,7 +326,8 @@ def expand(repo, finfo, keep=(), depth=3, pre=None):
                 if isinstance(st, ast.If):
                     test = st.test.operand if isinstance(st.test, ast.UnaryOp) and isinstance(st.test.op, ast.Not) else st.test
                     hlp = _helper_for(repo, finfo, test, keep) if isinstance(test, ast.Call) else None
-                    straight = hlp is not None and all(isinstance(x, (ast.Assign, ast.AugAssign, ast.AnnAssign, ast.Expr)) for x in hlp.node.body[:-1]) and isinstance(hlp.node.body[-1], ast.Return)
+                    hbody = [x for x in hlp.node.body if not (isinstance(x, ast.Expr) and isinstance(x.value, ast.Constant) and isinstance(x.value.value, str))] if hlp is not None else []
+                    straight = hlp is not None and len(hbody) >= 2 and all(isinstance(x, (ast.Assign, ast.AugAssign, ast.AnnAssign, ast.Expr)) for x in hbody[:-1]) and isinstance(hbody[-1], ast.Return)
                     if straight:  # helpers with branches / loops / handlers stay calls: their result is one opaque truth value
                         tmp = f"_h{len(used)}_{getattr(st, 'lineno', 0)}"
                         if tmp not in locals_:
